@@ -593,8 +593,11 @@ def checkC16 (obs : String) : Option String :=
                     && (p.bindings.any fun b => b.1 = mutex && b.2 == .list [sym (cl!"make-mutex")]) then none
                 else some ("printer-mutex-not-the-ports-mutex " ++ String.ofList n)
               | _ => some ("printer-shape " ++ String.ofList n)
+            else if isPrefix (cl!"%lf3:print:") n then
+              -- a record must be written inside ONE critical section: only make-printer gives that
+              some ("printer-not-a-single-critical-section " ++ String.ofList n)
             else none
-          | _ => none
+          | _ => if isPrefix (cl!"%lf3:print:") n then some ("printer-not-a-single-critical-section " ++ String.ofList n) else none
         bad
   | .panic stg => some ("panic " ++ stg)
   | _ => none
